@@ -354,3 +354,85 @@ fn c06_rolling_sum_step() {
     kani::cover!(max_from == 2 && n == 3 && starts.data[2] == 2 && starts.data[1] == 0, "resume with a window start that jumps");
     core::mem::forget((r, out, exit));
 });
+
+// ---- compute_change (fixed look-back) ----------------------------------------------------------
+eager_harness!(c06_change_step, 6,
+fn c06_change_step() {
+    let src = Mock::<usize, u32>::any(L);
+    let n = src.n();
+    let lb: usize = kani::any();
+    kani::assume(lb >= 1 && lb <= 3);
+    // compute_change unwraps current - previous: the documented input is a non-decreasing series
+    kani::assume(src.data[0] <= src.data[1] && src.data[1] <= src.data[2]);
+    let mut expect = [0u64; SN];
+    let mut i = 0;
+    while i < SN {
+        if i < n && i < 3 {
+            expect[i] = if i < lb { 0 } else { (src.data[i] - src.data[i - lb]) as u64 };
+        }
+        i += 1;
+    }
+    let (mut out, p, c) = any_output(&expect, n, 1);
+    let max_from: usize = kani::any();
+    kani::assume(max_from <= c);
+    let exit = Exit::new();
+    let r = out.compute_change(max_from, &src, lb, &exit);
+    assert!(r.is_ok());
+    check_result(&out, &expect, n);
+    kani::cover!(max_from == 2 && n == 3 && lb == 1, "resume with look-back 1");
+    kani::cover!(lb == 3 && n == 3, "look-back as long as the data");
+    core::mem::forget((r, out, exit));
+});
+
+// ---- compute_lookback (variable window starts) ---------------------------------------------------
+eager_harness!(c06_lookback_step, 6,
+fn c06_lookback_step() {
+    let src = Mock::<usize, u32>::any(L);
+    let starts = Mock::<usize, usize>::any(L);
+    let n = if src.n() < starts.n() { src.n() } else { starts.n() };
+    let mut i = 0;
+    while i < SN {
+        kani::assume(starts.data[i] <= i);
+        if i > 0 { kani::assume(starts.data[i - 1] <= starts.data[i]); }
+        i += 1;
+    }
+    let mut expect = [0u64; SN];
+    let mut i = 0;
+    while i < SN {
+        if i < n { expect[i] = src.data[starts.data[i]] as u64; }
+        i += 1;
+    }
+    let (mut out, p, c) = any_output(&expect, n, 1);
+    let max_from: usize = kani::any();
+    kani::assume(max_from <= c);
+    let exit = Exit::new();
+    let r = out.compute_lookback(max_from, &starts, &src, &exit);
+    assert!(r.is_ok());
+    check_result(&out, &expect, n);
+    kani::cover!(max_from == 1 && n == 3 && starts.data[2] == 0, "resume with a start before the resume point");
+    core::mem::forget((r, out, exit));
+});
+
+// ---- compute_cumulative_binary -------------------------------------------------------------------
+eager_harness!(c06_cumulative_binary_step, 6,
+fn c06_cumulative_binary_step() {
+    let a = Mock::<usize, u32>::any(L);
+    let b = Mock::<usize, u32>::any(L);
+    let n = if a.n() < b.n() { a.n() } else { b.n() };
+    let mut expect = [0u64; SN];
+    let mut acc = 0u64;
+    let mut i = 0;
+    while i < SN {
+        if i < n { acc += a.data[i] as u64 + b.data[i] as u64; expect[i] = acc; }
+        i += 1;
+    }
+    let (mut out, p, c) = any_output(&expect, n, 1);
+    let max_from: usize = kani::any();
+    kani::assume(max_from <= c);
+    let exit = Exit::new();
+    let r = out.compute_cumulative_binary(max_from, &a, &b, &exit);
+    assert!(r.is_ok());
+    check_result(&out, &expect, n);
+    kani::cover!(max_from == 2 && n == 3, "resume from the stored running sum");
+    core::mem::forget((r, out, exit));
+});
